@@ -341,3 +341,75 @@ func T10(rc *RC) {
 		rc.S.Ok("T10", fi.Key, pos, fmt.Sprintf("%d successful exits, all after the cleanup was registered", n))
 	}
 }
+
+// T11: tiny-tensor guard of the in-place transpose kernels. The cycle-following kernels start
+// at element 1 with elements 0 and size-1 pre-marked; with fewer than four elements there is
+// nothing to move and the loop would overwrite an element with the zero "saved" value. Every
+// kernel therefore returns early when the tensor has fewer than 4 *elements*: `len(data) < 4` on a
+// typed slice, `len(data) < 4*typeSize` on the raw byte slice (units: bytes vs elements).
+func T11(rc *RC) {
+	rc.S.Declare("T11", "in-place transpose kernels: each cycle-following kernel returns before its loop when the tensor has fewer than 4 elements - compared in elements for typed slices and in bytes (4*typeSize) for the raw byte slice", 0)
+	n := 0
+	for _, fi := range rc.P.SortedFuncs() {
+		if fi.Pkg != rc.P.Root || fi.Decl.Body == nil || fi.Decl.Recv == nil || !strings.HasPrefix(fi.Obj.Name(), "denseTranspose") || fi.Obj.Name() == "denseTranspose" {
+			continue
+		}
+		c := ir.NewCanon(rc.P.Fset, fi.Pkg.TypesInfo, ir.Options{ParamNames: true, KeepNames: true, NoSubst: true})
+		tree := c.Func(fi.Decl)
+		txt := ir.Render(tree)
+		if !strings.Contains(txt, "NewBitMap(") {
+			continue // copying build: no cycle following
+		}
+		n++
+		pos := rc.P.Pos(fi.Decl.Pos())
+		// the data variable and whether it is the raw byte slice
+		var dataVar string
+		raw := false
+		for _, nd := range flatten(tree) {
+			if (nd.Kind == "let" || nd.Kind == "store") && ldIdent.FindString(nd.Target) == nd.Target {
+				if strings.HasSuffix(nd.Value, ".Raw") || strings.Contains(nd.Value, ".Raw[") {
+					dataVar, raw = nd.Target, true
+				} else if regexp.MustCompile(`\.hdr\(\)\.\w+s\(\)$|\.Strings\(\)$`).MatchString(nd.Value) {
+					dataVar = nd.Target
+				}
+			}
+		}
+		if dataVar == "" {
+			rc.S.Undec("T11", fi.Key, pos, "data slice not identified")
+			continue
+		}
+		want := []string{"(4 > len(" + dataVar + "))"}
+		if raw {
+			want = nil
+			for _, nd := range flatten(tree) {
+				if (nd.Kind == "let" || nd.Kind == "store") && strings.Contains(nd.Value, ".Size()") {
+					want = append(want, "((4 * "+nd.Target+") > len("+dataVar+"))", "(("+nd.Target+" * 4) > len("+dataVar+"))")
+				}
+			}
+		}
+		found := ""
+		for _, nd := range tree {
+			if nd.Kind == "if" && strings.Contains(nd.Head, "len("+dataVar+")") && strings.HasPrefix(strings.TrimSpace(ir.Render(nd.Kids)), "return") {
+				found = nd.Head
+			}
+			if nd.Kind == "loop" {
+				break
+			}
+		}
+		ok := false
+		for _, w := range want {
+			if found == w {
+				ok = true
+			}
+		}
+		switch {
+		case found == "":
+			rc.S.Viol("T11", fi.Key, pos, "no early return for tensors with fewer than 4 elements before the cycle loop").Sig = "no guard"
+		case !ok:
+			rc.S.Viol("T11", fi.Key, pos, fmt.Sprintf("the tiny-tensor guard is %s, want %s (4 elements, in the unit of the slice)", found, strings.Join(want, " or "))).Sig = "guard " + found
+		default:
+			rc.S.Ok("T11", fi.Key, pos, found)
+		}
+	}
+	rc.S.Count("T11.kernels", n)
+}
